@@ -474,6 +474,58 @@ func runC10(r *engine.Run) {
 		}
 	})
 
+	// a join-accept value whose CFList carries opaque bytes held as a caller's sub-slice
+	cfOps := []string{"MarshalBinary", "MarshalText", "SetDownlinkJoinMIC", "ValidateDownlinkJoinMIC", "EncryptJoinAcceptPayload", "CFList.MarshalBinary", "JoinAcceptPayload.MarshalBinary"}
+	spCF := (&engine.Space{}).Dim("op", len(cfOps)).Dim("cflist payload length:0..16", 17).Dim("spare capacity{0,1,4,16,40}", 5)
+	r.PartDims("guarded-cflist-buffers", spCF.Desc(), spCF.N(), func(c *engine.Case) {
+		var ch [3]int
+		spCF.Decode(c.Index, ch[:])
+		n, spare := ch[1], []int{0, 1, 4, 16, 40}[ch[2]]
+		arena := make([]byte, 8+n+spare+8)
+		for i := range arena {
+			arena[i] = 0x5C ^ byte(i)
+		}
+		before := append([]byte(nil), arena...)
+		ja := &lorawan.JoinAcceptPayload{JoinNonce: 1, RXDelay: 1, CFList: &lorawan.CFList{CFListType: lorawan.CFListChannel, Payload: &lorawan.DataPayload{Bytes: arena[8 : 8+n : 8+n+spare]}}}
+		p := lorawan.PHYPayload{MHDR: lorawan.MHDR{MType: lorawan.JoinAccept}, MACPayload: ja}
+		k := keyOf(c05KeyA)
+		op := cfOps[ch[0]]
+		if pn, site, v := engine.Try(func() {
+			switch op {
+			case "MarshalBinary":
+				p.MarshalBinary()
+			case "MarshalText":
+				p.MarshalText()
+			case "SetDownlinkJoinMIC":
+				p.SetDownlinkJoinMIC(lorawan.JoinRequestType, lorawan.EUI64{1}, 2, k)
+			case "ValidateDownlinkJoinMIC":
+				p.ValidateDownlinkJoinMIC(lorawan.JoinRequestType, lorawan.EUI64{1}, 2, k)
+			case "EncryptJoinAcceptPayload":
+				p.EncryptJoinAcceptPayload(k)
+			case "CFList.MarshalBinary":
+				ja.CFList.MarshalBinary()
+			case "JoinAcceptPayload.MarshalBinary":
+				ja.MarshalBinary()
+			}
+		}); pn {
+			c.Fail("panic/"+site, fmt.Sprintf("%s on a join-accept with a %d-byte opaque CFList payload panics: %v", op, n, v), nil)
+			return
+		}
+		c.NonTrivial()
+		for q := range arena {
+			if arena[q] != before[q] {
+				key := "guarded-buffers/" + op + "/caller-buffer-modified"
+				where := "inside the caller's slice"
+				if q < 8 || q >= 8+n {
+					key = "guarded-buffers/" + op + "/write-outside-slice"
+					where = fmt.Sprintf("outside the slice (offset %d relative to its start, length %d)", q-8, n)
+				}
+				c.Fail(key, fmt.Sprintf("%s on a join-accept whose CFList payload is a %d-byte sub-slice with %d bytes of spare capacity wrote %s", op, n, spare, where), nil)
+				break
+			}
+		}
+	})
+
 	// ---- (c) reuse histories
 	types := c10ReuseTypes()
 	r.Extra("reuse_types", len(types))
